@@ -140,19 +140,48 @@ theorem bbelow_evalBlock {n : Nat} {d : WhereDS} (h : d.below n) (b : Block) :
       exact bbelow_cons (bbelow_nil n) (by simp [Term.below])
     · cases hh
 
-theorem bbelow_evalWhere {n : Nat} {d : WhereDS} (h : d.below n) (bs : List Block) (f : Option Flt) :
-    ∀ μ ∈ evalWhere d bs f, BBelow n μ := by
+theorem bbelow_groupSols {n : Nat} {d : WhereDS} (h : d.below n) (bs : List Block) :
+    ∀ μ ∈ groupSols d bs, BBelow n μ := by
   have key : ∀ (bs : List Block) (acc : List Binding), (∀ μ ∈ acc, BBelow n μ) →
       ∀ μ ∈ bs.foldl (fun acc b => join acc (evalBlock d b)) acc, BBelow n μ := by
     intro bs
     induction bs with
     | nil => intro acc ha; exact ha
     | cons b rest ih => intro acc ha; exact ih _ (bbelow_join ha (bbelow_evalBlock h b))
-  have h0 := key bs [[]] (by intro μ hμ; simp only [List.mem_singleton] at hμ; subst hμ; exact bbelow_nil n)
+  exact key bs [[]] (by intro μ hμ; simp only [List.mem_singleton] at hμ; subst hμ; exact bbelow_nil n)
+
+theorem bbelow_evalWhere {n : Nat} {d : WhereDS} (h : d.below n) (bs : List Block) (f : Option Flt) :
+    ∀ μ ∈ evalWhere d bs f, BBelow n μ := by
+  have h0 := bbelow_groupSols h bs
   unfold evalWhere
   cases f with
   | none => exact h0
   | some f => intro μ hμ; exact h0 μ (List.mem_filter.1 hμ).1
+
+theorem blookup_project (vs : List Nat) (μ : Binding) (v : Nat) :
+    blookup (project vs μ) v = if v ∈ vs then blookup μ v else none := by
+  induction μ with
+  | nil => simp [project, blookup]
+  | cons kv rest ih =>
+    obtain ⟨k, t⟩ := kv
+    unfold project at ih ⊢
+    simp only [List.filter_cons]
+    by_cases hk : k ∈ vs
+    · simp only [hk, decide_true, if_true, blookup]
+      by_cases e : k = v
+      · subst e; simp [hk]
+      · simp only [e, if_false]; exact ih
+    · simp only [hk, decide_false, Bool.false_eq_true, if_false, blookup]
+      by_cases e : k = v
+      · subst e; simp only [hk, if_false, if_true] at ih ⊢; exact ih
+      · simp only [e, if_false]; exact ih
+
+theorem bbelow_project {n : Nat} (vs : List Nat) {μ : Binding} (h : BBelow n μ) : BBelow n (project vs μ) := by
+  intro v t e
+  rw [blookup_project] at e
+  split at e
+  · exact h v t e
+  · cases e
 
 theorem graphTriples_below {s : St} (h : FreshInv s) (g : GName) : ∀ t ∈ graphTriples s.quads g, t.below s.next := by
   intro t ht
@@ -194,9 +223,31 @@ theorem bbelow_solutions (c : Cfg) (u : Modify) {s : St} (h : FreshInv s) :
     ∀ μ ∈ u.solutions c s, BBelow s.next μ := by
   unfold Modify.solutions
   simp only
-  split
-  · exact bbelow_evalWhere (storeDataset_below c h _) _ _
-  · exact bbelow_evalWhere (usingDataset_below h _ _) _ _
+  have hd : (if u.using_.isEmpty && u.named.isEmpty then storeDataset c s u.withG
+      else usingDataset s u.using_ u.named).below s.next := by
+    split
+    · exact storeDataset_below c h _
+    · exact usingDataset_below h _ _
+  generalize (if u.using_.isEmpty && u.named.isEmpty then storeDataset c s u.withG
+      else usingDataset s u.using_ u.named) = d at hd
+  have hbag : ∀ μ ∈ (match u.wmode with
+      | .plain => groupSols d u.where_
+      | .union bs => groupSols d u.where_ ++ groupSols d bs
+      | .proj vs => (groupSols d u.where_).map (project vs)), BBelow s.next μ := by
+    cases u.wmode with
+    | plain => exact bbelow_groupSols hd _
+    | union bs =>
+      intro μ hμ
+      rcases List.mem_append.1 hμ with h' | h'
+      · exact bbelow_groupSols hd _ μ h'
+      · exact bbelow_groupSols hd _ μ h'
+    | proj vs =>
+      intro μ hμ
+      obtain ⟨ν, hν, rfl⟩ := List.mem_map.1 hμ
+      exact bbelow_project vs (bbelow_groupSols hd _ ν hν)
+  cases u.flt with
+  | none => exact hbag
+  | some f => intro μ hμ; exact hbag μ (List.mem_filter.1 hμ).1
 
 /-! ### templates -/
 
